@@ -32,6 +32,7 @@ class Pool:
         self.slots = []
         self.tables = None            # (rdm_tab, pat_tab, nan_cells) of the RDMs family
         self.value_fn = enc
+        self.sem_checkers = {}        # kind -> (callable(slot, opname, prop=...), semantic property)
 
     # ------------------------------------------------------------------ slots / provenance
     def add(self, obj, kind, sem, op, parents=(), via_file=False):
@@ -118,6 +119,12 @@ class Pool:
                 msg = (f'after {opname} (target slot {target}, args {list(args)}), the {b.kind} in slot {b.sid} '
                        f'(made by {b.op} from {b.parents}) changed in {fields}: relation {rel}')
                 self.report(prop, 'bystander', sig, msg)
+                # an in-place op on one object that leaves *another* object's values and labels inconsistent also breaks
+                # the structural property itself (C10: "in-place operations change only the object they are called on";
+                # C11: "each retained row keeps exactly the descriptor values it had"): judge the bystander's own twin
+                chk = self.sem_checkers.get(b.kind)
+                if chk is not None and b.sem is not None and prop == 'C12':
+                    chk[0](b, f'bystander-after-{opname}[{rel.split("[")[0]}]', prop=chk[1])
                 b.snap = cur           # resynchronise after a tolerated corruption
                 b.sem = None           # retire the object from the semantic layer ...
                 b.alive = False        # ... and from further use as an operand (a corrupted object cascades)
